@@ -73,4 +73,29 @@ theorem exit0_balances_is_aggregate_of_delivered (o : Run.Opts) (key : Option W.
   rw [this]
   simp [Run.callbackOut, hcb]
 
+/-- partial sums ADD: the sum for an address over two pieces of the unspent outputs is the sum of the two partial sums -/
+theorem sumFor_append (a : String) (l1 l2 : List (String × Nat)) : B.sumFor a (l1 ++ l2) = B.sumFor a l1 + B.sumFor a l2 := by
+  induction l1 with
+  | nil => simp [B.sumFor]
+  | cons p l ih => simp only [List.cons_append, B.sumFor, ih]; omega
+
+theorem occurs_append (a : String) (l1 l2 : List (String × Nat)) : B.occurs a (l1 ++ l2) = (B.occurs a l1 || B.occurs a l2) := by
+  induction l1 with
+  | nil => simp [B.occurs]
+  | cons p l ih => simp only [List.cons_append, B.occurs, ih, Bool.or_assoc]
+
+/-- **however the unspent outputs are cut into pieces** (chunks of 65536, one per worker, one per block …): an address's balance is the
+    SUM over the pieces of its partial sums, and it is listed iff some piece contains one of its outputs — a merge that keeps one
+    piece's partial sum, or the last one's, is not this function -/
+theorem balance_is_sum_of_chunk_sums (a : String) (chunks : List (List (String × Nat))) :
+    B.sumFor a chunks.flatten = (chunks.map (B.sumFor a)).sum ∧ B.occurs a chunks.flatten = chunks.any (B.occurs a) := by
+  induction chunks with
+  | nil => simp [B.sumFor, B.occurs]
+  | cons c cs ih => simp [sumFor_append, occurs_append, ih.1, ih.2]
+
+/-- the accumulation can be resumed: folding a second piece into the table of the first is folding the concatenation -/
+theorem bal_append (m : HashMap String Nat) (l1 l2 : List (String × Nat)) : B.bal m (l1 ++ l2) = B.bal (B.bal m l1) l2 := by
+  simp [B.bal, List.foldl_append]
+
+example : B.sumFor "a" ([[("a", 5), ("b", 7)], [("a", 9)], []] : List (List (String × Nat))).flatten = 5 + 9 + 0 := by decide
 end Rbp.Props.C08
